@@ -5,6 +5,7 @@
 package main
 
 import (
+	"reflect"
 	"fmt"
 	"strings"
 
@@ -24,6 +25,9 @@ func (o op) String() string {
 	}
 	return map[byte]string{'S': "Store", 'L': "Load", 'D': "Delete", 'T': "StoreSame"}[o.kind] + "(" + o.key + ")"
 }
+
+// eqv compares stored values; values are arbitrary (slices included), so == is not available.
+func eqv(a, b interface{}) bool { return reflect.DeepEqual(a, b) }
 
 func alphabet(c int, same bool) []op {
 	nk := c + 1
@@ -57,6 +61,7 @@ type config struct {
 	cb      bool // callback registered
 	depth   int
 	same    bool // alphabet additionally holds StoreSame(k): the value stored is constant per key
+	slices  bool // with same: the constant value is a slice (values need not be comparable with ==)
 	cbPanic bool // the removal callback panics for key "b" (after logging); every operation is wrapped in recover
 	exotic  bool // the keys are unusual but legal map keys: nil, 0, "", struct{}{}, 1.5 (any comparable value is a key)
 }
@@ -151,7 +156,7 @@ func runSeq(cf config, ops []op, seq []int, c *runner.Ctx) (sig, detail string, 
 			return "callback-count", fmt.Sprintf("%s: callback log %v, model %v", where, log, m.Log)
 		}
 		for i := range log {
-			if log[i].k != m.Log[i].K || log[i].v != m.Log[i].V {
+			if log[i].k != m.Log[i].K || !eqv(log[i].v, m.Log[i].V) {
 				if log[i].k != m.Log[i].K {
 					return "callback-key", fmt.Sprintf("%s: callback log %v, model %v", where, log, m.Log)
 				}
@@ -170,8 +175,12 @@ func runSeq(cf config, ops []op, seq []int, c *runner.Ctx) (sig, detail string, 
 			m.Store(o.key, step)
 			trace = append(trace, o.String())
 		case 'T':
-			lru.Store(cf.rk(o.key), "same-"+o.key)
-			m.Store(o.key, "same-"+o.key)
+			var sv interface{} = "same-" + o.key
+			if cf.slices {
+				sv = []string{"same", o.key}
+			}
+			guard(func() { lru.Store(cf.rk(o.key), sv) })
+			m.Store(o.key, sv)
 			trace = append(trace, o.String())
 		case 'L':
 			v, ok := lru.Load(cf.rk(o.key))
@@ -184,7 +193,7 @@ func runSeq(cf config, ops []op, seq []int, c *runner.Ctx) (sig, detail string, 
 				}
 				return kind, fmt.Sprintf("%v: got (%v,%v) model (%v,%v)", trace, v, ok, mv, mok), calls, false
 			}
-			if ok && v != mv {
+			if ok && !eqv(v, mv) {
 				return "load-stale-value", fmt.Sprintf("%v: got %v model %v", trace, v, mv), calls, false
 			}
 		case 'D':
@@ -230,7 +239,7 @@ func runSeq(cf config, ops []op, seq []int, c *runner.Ctx) (sig, detail string, 
 		v, ok := lru.Load(cf.rk(o.key))
 		mv, mok := m.Load(o.key)
 		calls++
-		if ok != mok || (ok && v != mv) {
+		if ok != mok || (ok && !eqv(v, mv)) {
 			kind := "audit-load"
 			if ok && mok {
 				kind = "load-stale-value"
@@ -309,7 +318,7 @@ func longRun(c *runner.Ctx, capacity int, useDefault bool, stride, mix int) {
 			v, ok := lru.Load(pk)
 			mv, mok := m.Load(pk)
 			calls++
-			if ok != mok || (ok && v != mv) {
+			if ok != mok || (ok && !eqv(v, mv)) {
 				fail(i, "load-mismatch")
 				return
 			}
@@ -318,7 +327,7 @@ func longRun(c *runner.Ctx, capacity int, useDefault bool, stride, mix int) {
 			v, ok := lru.Load(ok0)
 			mv, mok := m.Load(ok0)
 			calls++
-			if ok != mok || (ok && v != mv) {
+			if ok != mok || (ok && !eqv(v, mv)) {
 				fail(i, "load-mismatch")
 				return
 			}
@@ -362,7 +371,7 @@ func longRun(c *runner.Ctx, capacity int, useDefault bool, stride, mix int) {
 		v, ok := lru.Load(k)
 		mv, mok := m.Load(k)
 		calls++
-		if ok != mok || (ok && v != mv) {
+		if ok != mok || (ok && !eqv(v, mv)) {
 			fail(steps, "audit-load")
 			return
 		}
@@ -441,6 +450,9 @@ func run(c *runner.Ctx) {
 			d--
 		}
 		cfgs = append(cfgs, config{cap: cp, cb: true, depth: d, same: true}, config{cap: cp, prefil: cp, cb: true, depth: d - 1, same: true})
+		if cp <= 2 {
+			cfgs = append(cfgs, config{cap: cp, cb: true, depth: d - 1, same: true, slices: true})
+		}
 	}
 	// a removal callback that panics for one key (operations recovered by the caller)
 	for cp := 0; cp <= 2; cp++ {
